@@ -91,14 +91,10 @@ Theorem C01_regex_excl_case_refuted :
 Proof. exact regex_excl_case_refuted. Qed.
 Print Assumptions C01_regex_excl_case_refuted.
 
-(* NEW finding: lower-casing the source text of a regex key (variables outside the ARGS family)
-   turns \D into \d: REQUEST_HEADERS:/^\D+$/ misses the header X-Id (which the pattern matches,
-   folded or not) and selects the header 123 (which it does not match) *)
-Theorem C01_regex_key_escape_refuted :
-  exists (q : request) (t : rtarget) (p : rxpat) (key v key' v' : bytes),
-    rt_var t = VReqHeaders /\ rt_sel t = SelRx p /\ rt_negs t = [] /\ rt_count t = false /\
-    In (key, v) (q_hdr q) /\ rxm csem p key = true /\ rxm csem p (key_lower key) = true /\
-    In (key', v') (q_hdr q) /\ rxm csem p key' = false /\
-    get_field csem ord_id (build1 q) (compile_target csem t) = [(VReqHeaders, key', v')].
-Proof. exact regex_key_escape_refuted. Qed.
-Print Assumptions C01_regex_key_escape_refuted.
+(* F51 (repaired by 45c27b9; before it the whole source text of a regex key was lower-cased and
+   REQUEST_HEADERS:/^\D+$/ selected the header 123 instead of X-Id): for the escape-class patterns
+   the folded pattern on the folded key decides exactly what the pattern as written decides on the key *)
+Theorem C01_regex_key_escape_exact : forall p k, p = RxNonDigits \/ p = RxDigits \/ p = RxNonSpace ->
+  rxm csem (rxlow csem p) (key_lower k) = rxm csem p k.
+Proof. exact class_key_fold_exact. Qed.
+Print Assumptions C01_regex_key_escape_exact.
